@@ -15,29 +15,30 @@ import (
 )
 
 // Hostile collection names: prefix pairs, names that look like key prefixes, unicode, empty.
-var collNames = []string{"c", "cc", "c:", "coll:", "c1", "x", "xy", "日本語", "a b", "", "C", "c:x", "d:", "i:a", "c.n", "x.n", "a-rather-long-collection-name-0123456789-abcdef"}
+var collNames = []string{"c", "cc", "c:", "coll:", "c1", "x", "xy", "日本語", "a b", "", "C", "c:x", "d:", "i:a", "c.n", "x.n", "a-rather-long-collection-name-0123456789-abcdef", "c%d", "%s",
+	"L512-" + strings.Repeat("l", 507), "L1024-" + strings.Repeat("m", 1018)}
 
 type SeqCfg struct {
-	Focus      string
-	Ops        [2]int
-	NColls     [2]int
-	InitDocs   []int // candidate initial sizes
-	AuditEvery [2]int
-	Queries    int // verification queries after each write
-	W          map[string]int
-	Backends   []string
-	Derived    bool // verification queries go through Derived()
-	CheckOthers bool // after every write, compare every other collection with the model (C13)
-	IDSweep    bool // after every write, FindById for every id ever used (C12)
-	SharedIDs  bool // collections reuse the same ids
-	MaxDocsForQueries int
+	Focus                    string
+	Ops                      [2]int
+	NColls                   [2]int
+	InitDocs                 []int // candidate initial sizes
+	AuditEvery               [2]int
+	Queries                  int // verification queries after each write
+	W                        map[string]int
+	Backends                 []string
+	Derived                  bool // verification queries go through Derived()
+	CheckOthers              bool // after every write, compare every other collection with the model (C13)
+	IDSweep                  bool // after every write, FindById for every id ever used (C12)
+	SharedIDs                bool // collections reuse the same ids
+	MaxDocsForQueries        int
 	CritPct, SortPct, WinPct int
-	IDStyles   bool // draw ids random / clustered / sequential per case
-	ForceFields map[string]gen.Profile
-	BigPad     bool
-	AuditAfterIndexOps bool
-	SupplyIDs  bool // never let clover generate ids (runs that must be reproducible across handles)
-	AfterClose bool // finish with Close and a battery of calls on the closed handle
+	IDStyles                 bool // draw ids random / clustered / sequential per case
+	ForceFields              map[string]gen.Profile
+	BigPad                   bool
+	AuditAfterIndexOps       bool
+	SupplyIDs                bool // never let clover generate ids (runs that must be reproducible across handles)
+	AfterClose               bool // finish with Close and a battery of calls on the closed handle
 }
 
 var baseWeights = map[string]int{
@@ -62,13 +63,13 @@ func weights(over map[string]int) map[string]int {
 
 type seqRun struct {
 	*S
-	cfg    *SeqCfg
-	r      *gen.Rng
-	pool   []string // shared id pool (SharedIDs)
+	cfg     *SeqCfg
+	r       *gen.Rng
+	pool    []string // shared id pool (SharedIDs)
 	idStyle int
 	idSeq   int
-	opKeys []string
-	opW    []int
+	opKeys  []string
+	opW     []int
 }
 
 func (d *seqRun) pickOp() string { return d.opKeys[d.r.Weighted(d.opW)] }
@@ -278,6 +279,11 @@ func (d *seqRun) pickUpd(coll string, bulkFunc bool) *Upd {
 		u.Name = "rewrite_id"
 		if d.r.P(35) {
 			u.SpellingOfOwnID = true // another spelling (letter case) of the document's own id
+		} else if d.r.P(30) {
+			// a dotted path below _id replaces the id string by an object
+			u.NewID = ""
+			u.Set["_id.rev"] = int64(d.r.Intn(5))
+			u.Name = "rewrite_id_dotted"
 		}
 	}
 	if d.r.P(d.cfg.W["badExpPct"]) {
@@ -753,9 +759,13 @@ func (d *seqRun) afterClose() {
 			{"InsertOne", func() error { _, e := d.h.DB.InsertOne(name, model.NewDoc(doc)); return e }},
 			{"Save", func() error { return d.h.DB.Save(name, model.NewDoc(doc)) }},
 			{"ReplaceById", func() error { return d.h.DB.ReplaceById(name, id, model.NewDoc(doc)) }},
-			{"UpdateById", func() error { return d.h.DB.UpdateById(name, id, (&Upd{Set: map[string]any{"a": int64(2)}}).callback(new([]updCall))) }},
+			{"UpdateById", func() error {
+				return d.h.DB.UpdateById(name, id, (&Upd{Set: map[string]any{"a": int64(2)}}).callback(new([]updCall)))
+			}},
 			{"Update", func() error { return d.h.DB.Update(q, map[string]any{"a": int64(2)}) }},
-			{"UpdateFunc", func() error { return d.h.DB.UpdateFunc(q, (&Upd{Set: map[string]any{"a": int64(2)}}).callback(new([]updCall))) }},
+			{"UpdateFunc", func() error {
+				return d.h.DB.UpdateFunc(q, (&Upd{Set: map[string]any{"a": int64(2)}}).callback(new([]updCall)))
+			}},
 			{"Delete", func() error { return d.h.DB.Delete(q) }},
 			{"DeleteById", func() error { return d.h.DB.DeleteById(name, id) }},
 			{"FindAll", func() error { _, e := d.h.DB.FindAll(q); return e }},
